@@ -65,7 +65,7 @@ func genStress(t *rapid.T) StressCase {
 		Writers:  rapid.IntRange(0, 2).Draw(t, "writers"),
 		Rounds:   rapid.IntRange(20, 120).Draw(t, "rounds"),
 	}
-	c.Scale = rapid.SampledFrom([]int{1, 1, 1, 16, 256, 2048}).Draw(t, "scale")
+	c.Scale = rapid.SampledFrom([]int{1, 1, 1, 1, 16, 128, 1024}).Draw(t, "scale")
 	c.Fit = rapid.IntRange(1, c.Keys-1).Draw(t, "fit")
 	c.Script = rapid.SliceOfN(rapid.IntRange(0, 63), 4, 24).Draw(t, "script")
 	c.Plan = rapid.SliceOfN(rapid.Custom(func(t *rapid.T) ROp {
